@@ -35,6 +35,17 @@ theorem area_center_eq_sums (st : Eps α) (a : Allocation α) (hv : ValidAlloc s
     (m ∉ modules a.cells → a.areaOf m = none ∧ a.centerOf m = none) :=
   ⟨fun hm => ⟨((hv.caches m).1 hm).1, hv.cells.areaNZ m hm, ((hv.caches m).1 hm).2⟩, (hv.caches m).2⟩
 
+/-- `area([m₁, …])` of known modules is the plain sum of the per-module areas: Python's compensated `sum()`
+    (`pySum`, Neumaier) is the ordinary sum in exact arithmetic. -/
+theorem area_list_eq_sum (st : Eps α) (a : Allocation α) (hv : ValidAlloc st a) (ms : List String)
+    (hms : ∀ m ∈ ms, m ∈ modules a.cells) :
+    a.areaList ms = .ok ((ms.map fun m => areaSum m a.cells).sum) := by
+  unfold Allocation.areaList
+  rw [mapE_eq_map _ (fun m => areaSum m a.cells) ms]
+  · simp only [pySum_eq_sum]
+  · intro m hm
+    rw [((hv.caches m).1 (hms m hm)).1]
+
 /-! ### each operation -/
 
 /-- **the operation succeeds on every valid allocation** (and leaves the tolerances alone). -/
